@@ -10,7 +10,7 @@ import time
 from concurrent.futures import ThreadPoolExecutor
 
 VERIF = os.path.dirname(os.path.dirname(os.path.abspath(__file__)))
-SEEDED = os.path.join(VERIF, "seeded")
+SEEDED = os.environ.get("XEVAL_DIR") or os.path.join(VERIF, "seeded")      # XEVAL_DIR=benign: the property-preserving changes
 CHECKS = ["C%02d" % i for i in range(1, 21)]
 HEAD = subprocess.run(["git", "-C", VERIF, "rev-parse", "--short", "HEAD"], capture_output=True, text=True).stdout.strip()
 
@@ -30,7 +30,7 @@ def sh(cmd, **kw):
 
 
 def slot_worker(slot, ids):
-    wt = "/tmp/xeval/slot%d" % slot
+    wt = "/tmp/xeval%s/slot%d" % (os.environ.get("XEVAL_TAG", ""), slot)
     if not os.path.isdir(wt):
         rc, out = sh(["git", "-C", "/repo", "worktree", "add", "--detach", wt, "HEAD"])
         if rc:
